@@ -141,6 +141,13 @@ func c20RandName(rng *rand.Rand) *der.Node {
 			b = bb
 		}
 		rdn := []gen.ATV{gen.AT(oid, tag, b)}
+		if rng.Intn(6) == 0 {
+			// next to the ordinary value, a second value of the same attribute whose tag has a string type's NUMBER
+			// in another class ([19], [APPLICATION 12] ...): the parser does not decode it, lints that look at the
+			// raw name see it - on the subject side and on the issuer side alike
+			rdns = append(rdns, rdn)
+			rdn = []gen.ATV{gen.ATC(oid, 1+rng.Intn(3), []int{der.TagPrintable, der.TagUTF8, der.TagIA5, der.TagT61}[rng.Intn(4)], []byte(val))}
+		}
 		if rng.Intn(5) == 0 { // multi-valued RDN
 			rdn = append(rdn, gen.AT(oids[rng.Intn(len(oids))], der.TagUTF8, []byte(c20DNValues[rng.Intn(len(c20DNValues))])))
 		}
